@@ -45,7 +45,7 @@ def check_pins(ctx, pgpy, pins, who):
 PINS.update({
     'PGPKey.parse': '40de9c3dbac1cad6', 'PGPKey.__bytearray__': 'cf5c4a72b4df4a15', 'PGPKey.__or__': 'e00a8edb5482499b', 'PGPKey.__copy__': 'd0947399d9c62607',
     'PGPKey.pubkey': '8ca1b2d84e32a4d4', 'PGPUID.__or__': 'ae8d18457c0f6909', 'PGPUID.__copy__': '2a1154b2ea7b17af', 'PGPUID.__lt__': 'f0e5e2eaa2fbafb7',
-    'PGPUID.selfsig': '111019c3241e9c1e', 'PGPUID.is_primary': '2717b1134fb7e336', 'PGPSignature.__lt__': '557ce558d85c25f6',
+    'PGPUID.selfsig': 'f5b0a4b25ee24849', 'PGPUID.is_primary': '2717b1134fb7e336', 'PGPSignature.__lt__': '557ce558d85c25f6',
     'PGPSignature.exportable': '28b877b70aaa4ac8', 'PGPSignature.__copy__': '1be2415cd6075ead',
     'SorteDeque.insort': 'c51e518d0825a677', 'SorteDeque.resort': '4eafdf7e56fd4538',
 })
@@ -267,7 +267,13 @@ def gen_blob(rng, thorough=False):
             cid = st['cid'] if rng.random() > 0.05 else max(1, st['cid'] - 1)    # occasionally the same user id again
             toks.append('U:%d:%d' % (0 if rng.random() < 0.25 else 1, cid)); trust()
             for _ in range(rng.choice((0, 1, 1, 2, 2, 3, 4))):
-                toks.append(gen_sig(rng, st, issuers, (16, 19, 19, 19, 48, 18), kl, times)); trust(); opaque_sig()
+                toks.append(gen_sig(rng, st, issuers, (16, 19, 19, 19, 48, 18, 22), kl, times)); trust(); opaque_sig()
+            r = rng.random()
+            if r < 0.30:
+                # the identity is revoked / attested by the key itself AFTER (or in the same second as) its newest certification:
+                # PGPUID.selfsig must still be the certification (repair 812bc0f) - primary mark and identity order depend on it
+                st['serial'] += 1
+                toks.append('S:%d:%d:%d:%d:%s:0' % (st['serial'], kl, 48 if r < 0.18 else 22, max(times) + rng.choice((0, 1, 50)), rng.choice('nnn10'))); trust()
             if rng.random() < 0.05:
                 st['oid'] += 1
                 toks.append('O:0:%d' % st['oid'])                                # an opaque packet and "its" signatures are skipped
@@ -441,6 +447,7 @@ def run(ctx):
             run_case(ctx, w, d, gen_blob(ctx.rng, not ctx.quick))
         regressions(ctx, w, d)
         regression_repeated_key(ctx, w, d)
+        regression_selfsig(ctx, w, d)
         from . import c15
         c15.history_keys_for_c14(ctx, n=ctx.n(60, 1000))
     finally:
@@ -462,6 +469,12 @@ CORPUS = [
     ['K:1:1:1:0', 'U:1:1', 'S:1:0:19:100:n:0', 'K:1:1:1:1', 'U:1:2', 'S:2:1:19:100:n:1', 'U:1:3', 'S:3:1:19:101:n:1', 'K:1:0:1:2', 'U:0:4'],
     ['K:1:1:1:0', 'U:1:1', 'S:1:0:19:100:n:1', 'U:1:2', 'S:2:0:19:101:n:1', 'S:3:0:48:102:n:0', 'U:1:3', 'S:4:0:19:99:n:1'],
     ['K:1:1:1:0', 'O:0:1', 'S:1:0:19:100:n:0', 'U:1:1', 'O:1:2', 'S:2:0:19:100:n:0'],
+    # repair 812bc0f: the newer of two primary identities revoked (attested) after its certification stays primary and first
+    ['K:1:1:1:0', 'U:1:1', 'S:1:0:19:100:n:1', 'U:1:2', 'S:2:0:19:101:n:1', 'S:3:0:48:102:n:0'],
+    ['K:1:1:1:0', 'U:1:1', 'S:1:0:19:100:n:1', 'U:1:2', 'S:2:0:19:101:n:1', 'S:3:0:22:102:n:0'],
+    # revocation / attestation of the same second as the certification, by a third party, non-exportable; an identity with nothing but a revocation
+    ['K:1:0:1:0', 'U:1:1', 'S:1:0:19:100:n:1', 'S:2:0:48:100:n:0', 'U:1:2', 'S:3:0:16:100:n:1', 'S:4:0:22:100:0:0', 'S:5:3:48:200:n:0', 'U:0:3', 'S:6:0:48:90:n:0',
+     'U:1:4', 'S:7:0:19:90:n:0', 'S:8:0:22:300:n:0', 'S:9:0:48:300:n:0', 'S:10:0:19:95:0:1'],
 ]
 
 
@@ -487,6 +500,35 @@ def regressions(ctx, w, d):
     old = d.call('import_f2', *toks).split('|')
     if w.export_s(k) == old[1] or 'S2' not in w.export_s(k):
         ctx.fail(suite, 'explicit exportable=True signature dropped on re-export (F2)', {'suite': suite, 'tokens': toks})
+
+
+def regression_selfsig(ctx, w, d):
+    """repair 812bc0f (witness of Props/C14.v C14_import_selfsig_old_refuted): a primary identity revoked / attested after its certification
+    keeps primary mark and place; the real code must follow the repaired model, not the model of the old selfsig rule"""
+    suite = 'regression'
+    for typ in (48, 22):
+        toks = ['K:1:1:1:1', 'U:1:1', 'S:1:1:19:100:n:1', 'U:1:2', 'S:2:1:19:101:n:1', 'S:3:1:%d:102:n:0' % typ]
+        case = {'suite': suite, 'tokens': toks}
+        ctx.case(suite, 'selfsig-%d' % typ, sample={'tokens': toks})
+        try:
+            blob = b''.join(w.bytes_of(t) for t in toks)
+            with warnings.catch_warnings():
+                warnings.simplefilter('ignore')
+                k = w.pgpy.PGPKey.from_blob(blob)[0]
+                got = w.key_s(k) + '|' + w.export_s(k)
+                prim = [bool(u.is_primary) for u in k._uids]
+            old = d.call('import_oldself', *toks)
+            new = '|'.join(d.call('import', *toks).split('|')[:2])
+            if new == old:
+                ctx.broken.append('regression selfsig-%d: the model of the selfsig rule before repair 812bc0f does not differ from the repaired one' % typ)
+            if got != new or got == old or prim != [True, True]:
+                ctx.fail(suite, 'a certification revocation / attestation by the key hides the self-certification (primary mark, identity order)',
+                         dict(case, got=got, model=new, before_repair=old, primary=prim))
+        except Exception as ex:
+            from .common import DriverError
+            if isinstance(ex, DriverError):
+                raise
+            ctx.fail(suite, 'exception while examining the imported key: %s: %s' % (type(ex).__name__, str(ex)[:120]), case)
 
 
 def regression_repeated_key(ctx, w, d):
